@@ -542,7 +542,7 @@ def _lay_forest(r, F, depth=0):
         if (depth < (1 if flat else 3)) and r.random() < 0.45:
             out.append((_lay_name(r, F, False), None, _lay_forest(r, F, depth + 1)))
         else:
-            out.append((_lay_name(r, F, fam == "brace"), _lay_value(r, F), None))
+            out.append((_lay_name(r, F, True), _lay_value(r, F), None))
     if flat and depth == 0:
         out.sort(key=lambda t: 0 if t[2] is None else 1)
     return out
